@@ -36,6 +36,7 @@
 import Gobptree.Proofs.ConcReach
 import Gobptree.Run
 import Gobptree.Proofs.CFinal2
+import Gobptree.Proofs.CQuiescent
 
 namespace Gobptree.Conc
 open Gobptree
@@ -62,6 +63,18 @@ theorem C03_invariants (lt : K → K → Bool) (P : Params K) (tree : Tree K V) 
     (hdel : 4 ≤ tree.order ∨ NoDelete progs)
     (c : Config K V) (hr : Reachable (Config.init P tree progs) c) : KFInv lt c :=
   reachable_kfinv' lt P tree progs hkp ht hord hsep ho hp hd hdel c hr
+
+/-- **C03: "every reachable initial tree".** The tree left behind by ANY completed execution
+    (no operation in flight) of any family of programs satisfies the three initial-tree
+    hypotheses again, so every theorem here applies to every tree that can be built through the
+    API — sequentially or concurrently — starting from a fresh one. -/
+theorem C03_reachable_trees_are_initial (lt : K → K → Bool) (P : Params K) (tree : Tree K V)
+    (progs : List (List (COp K V)))
+    (hkp : KParams lt P) (ht : TreeOk none tree) (hord : OrdTree lt tree) (hsep : SepTree lt tree)
+    (ho : tree.order = P.order) (hp : PadOk P) (hd : Disciplined progs) (hdel : 4 ≤ tree.order ∨ NoDelete progs)
+    (c : Config K V) (hr : Reachable (Config.init P tree progs) c) (hq : AtRest c) :
+    TreeOk none c.tree ∧ OrdTree lt c.tree ∧ SepTree lt c.tree ∧ c.tree.order = P.order :=
+  reachable_rest_tree_ok lt P tree progs hkp ht hord hsep ho hp hd hdel c hr hq
 
 /-- a fresh tree satisfies all three initial-tree hypotheses, for every even order ≥ 2 and
     every comparison -/
@@ -174,3 +187,4 @@ end Gobptree.Conc
 #print axioms Gobptree.Conc.C03_linearizable
 #print axioms Gobptree.Conc.C03_invariants
 #print axioms Gobptree.Conc.C03_fresh_tree_ok
+#print axioms Gobptree.Conc.C03_reachable_trees_are_initial
